@@ -11,6 +11,8 @@ pub mod c08;
 
 mod c09;
 
+pub mod c18;
+
 pub fn dispatch(_cmd: &str, _a: &Args) -> bool {
     if c08::dispatch(_cmd, _a) || c09::dispatch(_cmd, _a) {
         return true;
@@ -25,6 +27,8 @@ pub fn dispatch(_cmd: &str, _a: &Args) -> bool {
         "c10" => rel::c10(_a),
         "c14" => rel::c14(_a),
         "c15" => rel::c15(_a),
+        "c18-decode" => c18::decode_cmd(_a),
+        "c18-child" => c18::child(_a),
         _ => return false,
     }
     #[allow(unreachable_code)]
